@@ -6,6 +6,7 @@ use serde_json::Value;
 
 pub mod common;
 pub mod c01;
+pub mod multi;
 
 pub struct Prop {
     pub id: &'static str,
@@ -15,6 +16,9 @@ pub struct Prop {
 
 pub const PROPS: &[Prop] = &[
     Prop { id: "C01", run: c01::run, check_case: c01::check_case },
+    Prop { id: "C02", run: multi::run_c02, check_case: multi::check_case_c02 },
+    Prop { id: "C03", run: multi::run_c03, check_case: multi::check_case_c03 },
+    Prop { id: "C09", run: multi::run_c09, check_case: multi::check_case_c09 },
 ];
 
 pub fn find(id: &str) -> Option<&'static Prop> {
